@@ -4,12 +4,16 @@ patch="$1"; prop="$2"; tier="${3:-quick}"
 cd /repo || exit 2
 if [ -n "$(git status --porcelain)" ]; then echo "repo not clean"; exit 2; fi
 if ! git apply "$patch" 2>/dev/null; then
-  if ! git apply -3 "$patch" 2>/dev/null; then
-    if ! patch -p1 -s --no-backup-if-mismatch < "$patch"; then echo "PATCH-DOES-NOT-APPLY"; git checkout -- . ; git clean -fdq; exit 2; fi
+  git reset -q --hard
+  if ! git apply -3 "$patch" 2>/dev/null || [ -n "$(git diff --name-only --diff-filter=U)" ]; then
+    git reset -q --hard
+    if ! patch -p1 -s -f --no-backup-if-mismatch < "$patch" >/dev/null 2>&1; then echo "PATCH-DOES-NOT-APPLY"; git reset -q --hard; git clean -fdq; exit 2; fi
   fi
 fi
+export GOFLAGS=-mod=mod GOPROXY=off GOSUMDB=off GOTOOLCHAIN=local
+if ! go build ./... 2>/dev/null; then echo "PATCHED-TREE-DOES-NOT-BUILD"; git reset -q --hard; git clean -fdq; exit 2; fi
 git status --short | head -5
 cd /verif && ./check "$prop" "$tier" 2>&1 | cut -c1-400 | head -${LINES_MAX:-14}
 rc=${PIPESTATUS[0]}
-cd /repo && git reset -q && git checkout -- . && git clean -fdq
+cd /repo && git reset -q --hard && git clean -fdq
 echo "exit=$rc"
